@@ -507,7 +507,7 @@ func TestCheck(t *testing.T) {
 	r.Rule(fmt.Sprintf("hierarchy: trusted pool {R1 p256, R2 rsa2048, R3 / 'R3 v2' one p256 key under two names, the newer without SKI}; intermediates I1 (p384) <- R1, I2 (rsa) <- I1, J1 (ed25519) <- R2, X (p256) issued by R1 and by R2, pre-issuer P (CT EKU) <- I1, R1 cross-certified by R2, R1 re-issued outside the pool, K <- 'R3 v2'; per CA a same-name-other-key impostor, two non-CA twins (no basicConstraints / CA:FALSE), a same-key-other-name twin; per certificate two forgeries (wrong key of the same / of another algorithm); an untrusted root and intermediate. "+
 		"Bases: %d valid paths of length 1..4 x leaf kind {cert, precert, poison non-critical, poison non-NULL%s} plus CA certificates and pool roots as first element. "+
 		"Phase P: every sequence within %d perturbation(s) {drop i, swap i/j, duplicate i (adjacent / at end), insert untrusted CA / untrusted root / other pool root at every position (incl. after the root), impostor, non-CA, renamed twin, forged signature, 4 kinds of non-certificate bytes at every position and appended} of every base x %d probe option sets. "+
-		"Phase O: full option product {NotAfter window x expiry mode+clock x acceptOnlyCA x required EKU x forbidden extension ids} x every base, unperturbed and with the root omitted (thorough: plus one structural reject per base). "+
+		"Phase O: full option product {NotAfter window x expiry mode+clock x acceptOnlyCA x required EKU x forbidden extension ids} x bases (quick: one-int, two-int, preissuer, renamed-root-aki in every leaf kind, CA certificate, pool root alone, pool root + cross issuer, leaves without EKU / clientAuth / clientAuth+serverAuth; thorough: every base), unperturbed and with the root omitted (thorough: plus leaf and issuer swapped). "+
 		"Every case on ctfe.ValidateChain(+IsPrecertificate), add-chain and add-pre-chain of a fresh front end. distinct_nontrivial = distinct (sequence, options, endpoint) whose oracle verdict is accept or reject-for-exactly-one-clause",
 		len(w.bases), map[bool]string{true: ", poison empty", false: ""}[th], depth, len(probeOptions(th))))
 	r.Assume(
@@ -559,7 +559,11 @@ func TestCheck(t *testing.T) {
 	r.Set("phaseP_jobs", len(jobs))
 	prod := productOptions(th)
 	np := len(jobs)
+	quickO := map[string]bool{"one-int": true, "two-int": true, "preissuer": true, "renamed-root-aki": true, "ca-leaf": true, "root-alone-r1": true, "pool-root-then-cross": true}
 	for _, b := range append(append([]base{}, w.bases...), w.optBases...) {
+		if !th && !quickO[b.name] && !strings.HasPrefix(b.name, "one-int-eku") {
+			continue // quick: one base per distinct kind of first element; thorough: every base
+		}
 		var items []item
 		for _, n := range b.path {
 			items = append(items, certItem(n))
